@@ -205,7 +205,10 @@ pub fn obscmp(a: &str, b: &str) -> String {
     f.push(format!("c01={}", (obs::skeleton(ra, true) == obs::skeleton(rb, true)) as u8));
     f.push(format!("c06={}", (obs::obs_comments(ra) == obs::obs_comments(rb)) as u8));
     f.push(format!("c07={}", (obs::obs_off(ra) == obs::obs_off(rb)) as u8));
-    f.push(format!("c08={}", (obs::obs_markup(ra) == obs::obs_markup(rb)) as u8));
+    f.push(format!(
+        "c08={}",
+        (obs::obs_markup(ra) == obs::obs_markup(rb) && obs::obs_mixed_breaks(ra) == obs::obs_mixed_breaks(rb)) as u8
+    ));
     f.push(format!("c09={}", (obs::obs_math(ra) == obs::obs_math(rb)) as u8));
     f.push(format!("c10={}", (obs::obs_literals(ra) == obs::obs_literals(rb)) as u8));
     f.push(format!("c19={}", (obs::obs_imports(ra) == obs::obs_imports(rb)) as u8));
@@ -386,9 +389,31 @@ pub fn run_with(w: usize, t: usize, reorder: bool, src: &str, given: Option<&str
                 }
                 let a = obs::obs_markup(root);
                 let b = obs::obs_markup(oroot);
-                f.push(format!("c08={}", (a == b) as u8));
+                // no rewrapping: inside a line that holds text, line breaks do not depend on the width
+                let (mut wa, mut wb) = (Vec::new(), Vec::new());
+                if let Outcome::Ok(wide) = format(config(1_000_000, t, reorder), src) {
+                    let ws = Source::detached(wide);
+                    wa = obs::obs_mixed_breaks(oroot);
+                    wb = obs::obs_mixed_breaks(ws.root());
+                    // only the pieces that were on ONE source line are claimed to stay on one line
+                    let wsrc = obs::obs_mixed_breaks(root);
+                    if wsrc.len() == wa.len() && wsrc.len() == wb.len() {
+                        for (i, x) in wsrc.iter().enumerate() {
+                            if !x.ends_with(":0") {
+                                wa[i] = String::new();
+                                wb[i] = String::new();
+                            }
+                        }
+                    } else {
+                        wa.clear();
+                        wb.clear();
+                    }
+                }
+                f.push(format!("c08={}", (a == b && wa == wb) as u8));
                 if a != b {
                     f.push(format!("c08d={}", hex(&first_diff(&a, &b))));
+                } else if wa != wb {
+                    f.push(format!("c08d={}", hex(&format!("rewrapped: {}", first_diff(&wa, &wb)))));
                 }
                 let a = obs::obs_math(root);
                 let b = obs::obs_math(oroot);
